@@ -1,30 +1,87 @@
 # What MANIFEST.json claims. Edited by hand; tools/mkmanifest.py turns it into MANIFEST.json.
-BASE_NOTE = ("Trusted: Lean 4.33 kernel (axioms propext, Classical.choice, Quot.sound only; audited per run), the theorem "
-             "statements, the fact extractor, the correspondence harness (differential, sampling), and the hand-written "
-             "model as a description of the Go code and of the Go standard library it paraphrases.")
+BASE_NOTE = ("Trusted: Lean 4.33 kernel (axioms propext, Classical.choice, Quot.sound only; audited on every run), the theorem "
+             "statements and TwSpec definitions, the fact extractor (go/parser + go/types), the correspondence harness "
+             "(differential, it samples), and the hand-written model TwModel as a description of the Go code and of the Go "
+             "standard library functions it paraphrases (strconv, html, strings, unicode tables, reflect, filepath, os). "
+             "A theorem is about the model; its tie to /repo is re-checked on every run (regenerated Facts.lean obligations + "
+             "model/implementation comparison on every generated case).")
+
+T = "Lean 4 theorems about an executable model of textwire + facts regenerated from the Go sources + model/implementation correspondence; "
 
 CLAIMED = {
- "C05": ("Lean 4 theorems about the lexer model (text layer) + regenerated directive tables + model/impl correspondence",
-         "Theorems about the byte-level lexer model state how text outside Textwire syntax reaches the output; the model's "
-         "tables (directives, keywords) are regenerated from the Go sources and re-checked, and the compiled model is compared "
-         "with the real EvaluateString on exhaustive short strings over the adversarial alphabet plus random longer ones; the "
-         "statement itself (identity on plain text, escape removal, silent comments) is the oracle on the implementation.",
-         BASE_NOTE),
- "C08": ("Lean 4 termination / totality theorems for the lexer model + correspondence under a watchdog",
-         "The lexer model is a structural recursion whose fuel bound is proved adequate; parser loops are modelled with fuel and "
-         "every case also runs on the real code under a deadline (hang, crash and panic are violations as such); prefixes, "
-         "deletions, duplications and swaps of generated valid templates and exhaustive lexeme sequences are explored.",
-         BASE_NOTE),
- "C19": ("Lean 4 position-invariant theorems for the lexer model + correspondence + statement-level oracle on every cursor",
-         "Token positions are produced by the same readChar state machine in model and code; theorems relate the model's "
-         "line/column bookkeeping to the position function of the statement, the correspondence compares every token of every "
-         "generated input, and the statement (tiling, own text, cursor uniqueness, EOF position) is checked directly on the "
-         "implementation's tokens.",
-         BASE_NOTE),
+ "C01": (T + "spec evaluator on expression trees as oracle",
+  "The model's Pratt parser and evaluator are related to a token-free denotational semantics (TwSpec.ExprSem); the precedence table, "
+  "the parser registrations and the binding power at every parseExpression call site are regenerated from parser.go and re-checked; "
+  "every pair and sampled triples of binary operators, unary/postfix/ternary/member combinations and random typed/untyped trees are "
+  "rendered in three layouts x three parenthesisation styles by the real code, by the model and by the specification.", BASE_NOTE),
+ "C02": (T + "reference interpreter of the statement as oracle",
+  "Theorems about evalIfStmt's model (first truthy branch, later branches unused, truthiness table) and correspondence over all "
+  "branch shapes up to three @elseif x all vectors {falsy, truthy, failing} x every condition value kind, nested and inside loops.", BASE_NOTE),
+ "C03": (T + "reference interpreter of the statement as oracle",
+  "Loop semantics of the model (iteration order, loop metadata, break/continue through nested @if, @else iff empty / false at entry) "
+  "with correspondence over array lengths 0..6, a control directive at every body position bare and under 1-2 @if, nested loops, "
+  "for-loops with bounds -3..3 in both directions and three step forms.", BASE_NOTE),
+ "C04": (T + "reference interpreter of the statement as oracle",
+  "Scope-stack theorems for the model's environment (set/get frame lemmas, type stability, reserved name) and correspondence over "
+  "assign/read sequences at every nesting position, all type pairs for re-assignment and pre-bound data names.", BASE_NOTE),
+ "C05": (T + "the statement (identity / escape removal / silent comments) as oracle",
+  "Theorems about the byte-level lexer model for text outside Textwire syntax; directive and keyword tables regenerated; exhaustive "
+  "strings over the adversarial alphabet to a length bound and random longer ones, alone and spliced around blocks and directives.", BASE_NOTE),
+ "C06": (T + "substitution of inserts into reserves as oracle",
+  "The model's loader attaches inserts to the layout's reserves and the evaluator renders them in the environment current at the "
+  "reserve; correspondence over generated layouts (reserves at top level, in @if, in @each, in both) x pages inserting subsets in "
+  "block or expression form x data x directory/extension settings, plus the four error situations.", BASE_NOTE),
+ "C07": (T + "per-use instantiation as oracle",
+  "The model binds one freshly parsed component program to every use; correspondence over pages with 1..4 uses of three component "
+  "files with named/default slots, inside loops, conditionals and insert blocks, and the load-time error cases.", BASE_NOTE),
+ "C08": (T + "watchdog (deadline, crash, panic) + 'program xor error with a line' as oracle",
+  "Lexer termination is a theorem about the model (fuel bound adequate, every step consumes input); the parser model mirrors the "
+  "continue-after-error control flow with fuel. Exhaustive lexeme sequences, every prefix / deletion / duplication / swap of "
+  "generated valid templates, illegal characters and byte soups run on the real code under a deadline.", BASE_NOTE),
+ "C09": (T + "no panic / error carries a line as oracle",
+  "Every unchecked Go operation is an explicit panic outcome in the model (and listed by the extractor as a fact); correspondence over "
+  "every built-in x receiver x argument tuple with boundary counts, untyped programs, the named faults, and data with nil pointers "
+  "and unsupported values.", BASE_NOTE),
+ "C10": (T + "the four clauses of the statement as oracle",
+  "Theorems about html escaping + quote restoration in the model (no raw angle bracket, ampersand always an entity, unescape is the "
+  "inverse); exhaustive literal contents over the entity-rich alphabet in six usage contexts with and without raw().", BASE_NOTE),
+ "C11": (T + "independent Go reference implementations of the contracts as oracle",
+  "Contract theorems for the model's built-ins; correspondence over the full built-in x receiver x argument cross product; "
+  "rune-level contracts, slice clamping over all (len,start,end), purity sequences and UTF-8 validity checked directly.", BASE_NOTE),
+ "C12": (T + "lookup in the described Go value as oracle",
+  "The conversion of Go data is a total function in the model (nil pointers, unsupported kinds at any depth); values are generated "
+  "by type-directed recursion and realised with reflect (struct types built at run time, all integer widths), access paths via dot "
+  "and index syntax; the caller's data is compared before and after every render.", BASE_NOTE),
+ "C13": (T + "line and path known by construction as oracle",
+  "Token end lines follow from the lexer position invariant; faults of every listed kind are injected after every kind of multi-line "
+  "token, in strings and in template trees (page, layout, component), and the reported line and path are compared.", BASE_NOTE),
+ "C14": (T + "N repetitions in one process and in several processes as oracle",
+  "In the model every iteration over a Go map is in sorted key order (the extractor lists every range over a map in the sources); "
+  "object printing, dumps, several simultaneous faulty inserts / slots / files / arguments / data values are repeated 20-200 times "
+  "in several worker processes and compared with each other and with the model.", BASE_NOTE),
+ "C15": (T + "race detector + comparison with the sequential baseline as oracle",
+  "The rendering paths write no shared state except one atomic flag (regenerated fact F9: writes to package-level variables reachable "
+  "from the entry points); workloads of 2-16 goroutines x mixed successful and failing renders run in a -race build with GOMAXPROCS "
+  "1/2/16; any race report or any result different from the same call run alone is a violation. Partial: the Go scheduler and memory "
+  "model are not modelled; the theorem is about the read/write abstraction.", BASE_NOTE),
+ "C16": (T + "same operation first vs. after a history vs. after reset as oracle",
+  "The model's render operations return the state unchanged except the mode flag, which no render reads; all histories of length <= 1 "
+  "(thorough: 2) over 25 operations x 4 configurations and random longer ones.", BASE_NOTE),
+ "C17": (T + "the clauses of the statement on body and returned error as oracle",
+  "Response in the model writes either the page or one error page computed from configuration and error only; the regenerated built-in "
+  "error page is part of the model; the full matrix debug x custom page {none, valid, missing, failing} x {success, late failure, "
+  "early failure, nested path, missing} with configuration flips and string evaluations in between.", BASE_NOTE),
+ "C18": (T + "expected name set / fault identification as oracle; fault enumeration over a valid tree",
+  "Name registration in the model is path arithmetic over an abstract file system (clean, trim prefix/suffix); real directory trees are "
+  "written for every case; directory spellings, extensions occurring inside names, every file of a valid tree truncated at prefixes, "
+  "replaced by garbage, a dangling symlink, a directory, or deleted.", BASE_NOTE),
+ "C19": (T + "the statement (tiling, own text, cursor uniqueness, EOF position) as oracle",
+  "Position bookkeeping of the lexer model is proved equal to the position function of the statement; every token of every generated "
+  "input is compared between model and code and checked against the statement.", BASE_NOTE),
+ "C20": (T + "abstract first-writer-wins registry as oracle",
+  "Registration in the model is an append-if-absent list per type (first writer wins by construction + theorem); conversion "
+  "round-trip Val -> native -> Val is the identity; exhaustive short registration histories and random ones with calls on literals and "
+  "variables before and after loading.", BASE_NOTE),
 }
 
 NOT_APPLICABLE = {}
-for i in range(1, 21):
-    pid = "C%02d" % i
-    if pid not in CLAIMED:
-        NOT_APPLICABLE[pid] = "check under construction in this session: model exists, generators / theorems for this property are not registered yet (not a limitation of the technique)"
